@@ -106,6 +106,14 @@ def crash_signature(srv, line):
     return "Crash|%s" % w[0]
 
 
+def c10_context(srv, evs):
+    """which way notifications were requested in the execution and whether the server declares priorities (the
+    signature of a C10 finding names both, so that a failure of another variant is not taken for a known one)"""
+    how = sorted({"v" if e.get("how") == 0 else "u" for e in evs if e.get("e") == "Notify"})
+    o = srv.norm["opts"]["prio"]["kind"] != "none" or any(s["prio"]["kind"] != "none" for s in srv.norm["services"])
+    return "|prio=%d|how=%s" % (1 if o else 0, "".join(how))
+
+
 def report(c, mode, srv, scripts, traces, crashes, counts):
     """validate the traces; one finding per rejected event / crash"""
     _attsec.count_events(traces, counts)
@@ -118,7 +126,7 @@ def report(c, mode, srv, scripts, traces, crashes, counts):
         if ev.get("e") == "Crash":
             continue
         short = {k: v for k, v in ev.items() if k not in ("vals", "cccd", "decl")}
-        c.finding(signature(why), "%s: event %s is not allowed by the %s oracle %s" % (srv.name, json.dumps(short)[:300], mode, list(why)),
+        c.finding(signature(why) + (c10_context(srv, evs) if mode == "C10" else ""), "%s: event %s is not allowed by the %s oracle %s" % (srv.name, json.dumps(short)[:300], mode, list(why)),
                   {"mode": mode, "decl": srv.decl, "lines": _attsec.lines_of_events(evs)})
 
 
@@ -147,8 +155,8 @@ def chunked(scripts, n_events):
     return parts
 
 
-def replay_behaviours(c, mode, srv, tag, behs, counts, observe=True, chunk=12000):
-    scripts = [_attsec.script_of(srv, b, observe) for b in behs]
+def replay_behaviours(c, mode, srv, tag, behs, counts, observe=True, chunk=12000, tail=()):
+    scripts = [_attsec.script_of(srv, b, observe) + list(tail) for b in behs]
     for i, part in enumerate(chunked(scripts, chunk)):
         traces, crashes = _attsec.run(c, srv, "%s%d" % (tag, i), part)
         report(c, mode, srv, part, traces, crashes, counts)
@@ -173,14 +181,14 @@ def run_c05(c):
     decls = [_attsec.c05_decl(p, "c05_p%02d" % i, gap=(i == 1)) for i, p in enumerate(placements)]
     servers = _attsec.build(c, _attsec.prepare(c, decls))
     c.extra["placements"] = [list(p) for p in placements]
-    _attsec.model_check(c, servers[0], "C05", 2, True, ["RefConforms", "C05NoLeak", "C05Code"], nc=1)
+    _attsec.model_check(c, servers[0], "C05", 2, 1, ["RefConforms", "C05NoLeak", "C05Code"], nc=1)
     counts = {}
     nsim, dsim = (12, 30) if c.quick else (60, 40)
 
     def one(s):
         # every operation behind every scenario prefix; all pairs of operations for the first placement (all in thorough)
-        behs = _attsec.behaviours(c, s, "C05", 2 if (s is servers[0] or not c.quick) else 1, True, nc=1)
-        behs += _attsec.behaviours(c, s, "C05", dsim, False, nc=2, simulate=nsim, seed=c.seed)
+        behs = _attsec.behaviours(c, s, "C05", 2 if (s is servers[0] or not c.quick) else 1, 1, nc=1)
+        behs += _attsec.behaviours(c, s, "C05", dsim, 0, nc=2, simulate=nsim, seed=c.seed)
         return s, behs
     for s, behs in parallel(one, servers):
         c.sample({"declaration": s.name, "placement": s.decl["comment"], "behaviour": behs[len(behs) // 2]})
@@ -199,20 +207,20 @@ def run_c07(c):
                       "refusing when it does not fit with 4 octets (handle + offset)"]
     servers = _attsec.build(c, _attsec.prepare(c, _attsec.c07_decls()))
     big, small = servers
-    _attsec.model_check(c, big, "C07", 5 if c.quick else 6, False, C07_INV, nc=2)
-    _attsec.model_check(c, small, "C07", 4 if c.quick else 5, False, C07_INV, nc=3)
+    _attsec.model_check(c, big, "C07", 5 if c.quick else 6, 0, C07_INV, nc=2)
+    _attsec.model_check(c, small, "C07", 4 if c.quick else 5, 0, C07_INV, nc=3)
     counts = {}
     nsim, dsim = (150, 14) if c.quick else (2500, 16)
     plan = [(big, 3, 2), (small, 2, 3)] if c.quick else [(big, 3, 3), (small, 3, 2), (big, 4, 1)]
 
     def one(job):
         s, depth, nc = job
-        return s, _attsec.behaviours(c, s, "C07", depth, False, nc=nc)
+        return s, _attsec.behaviours(c, s, "C07", depth, 0, nc=nc)
     for s, behs in parallel(one, plan):
         c.sample({"declaration": s.name, "behaviour": behs[len(behs) // 3]})
         replay_behaviours(c, "C07", s, "bfs", behs, counts)
     for s in servers:
-        behs = _attsec.behaviours(c, s, "C07", dsim, False, nc=3, simulate=nsim, seed=c.seed)
+        behs = _attsec.behaviours(c, s, "C07", dsim, 0, nc=3, simulate=nsim, seed=c.seed)
         c.sample({"declaration": s.name, "behaviour": behs[0]})
         replay_behaviours(c, "C07", s, "sim", behs, counts)
     c.exhaustive = True
@@ -227,17 +235,18 @@ def run_c10(c):
     decls = _attsec.c10_decls(4 if c.quick else 10, c.seed)
     servers = _attsec.build(c, _attsec.prepare(c, decls))
     c.extra["declarations"] = [d["comment"] for d in decls]
-    _attsec.model_check(c, servers[0], "C10", 3, True, ["RefConforms", "C10Requested", "C10Single"], nc=2)
+    _attsec.model_check(c, servers[0], "C10", 3, 1, ["RefConforms", "C10Requested", "C10Single"], nc=2)
     counts = {}
     nsim, dsim = (40, 24) if c.quick else (400, 30)
 
     def one(s):
-        behs = _attsec.behaviours(c, s, "C10", 2, True, nc=2)
-        behs += _attsec.behaviours(c, s, "C10", dsim, True, nc=2, simulate=nsim, seed=c.seed)
+        behs = _attsec.behaviours(c, s, "C10", 2, 1, nc=2)
+        behs += _attsec.behaviours(c, s, "C10", dsim, 2, nc=2, simulate=nsim, seed=c.seed)
         return s, behs
     for s, behs in parallel(one, servers):
         c.sample({"declaration": s.name, "priorities": s.decl["comment"], "behaviour": behs[len(behs) // 2]})
-        replay_behaviours(c, "C10", s, "c10", behs, counts)
+        # every execution ends with a drain of both connections: whatever was requested is observed
+        replay_behaviours(c, "C10", s, "c10", behs, counts, tail=("drain 0", "drain 1"))
     c.exhaustive = True
     c.extra["events_by_action"] = counts
 
@@ -246,14 +255,14 @@ def run_c10(c):
 KNOWN_OPS = [0x01, 0x02, 0x04, 0x06, 0x08, 0x0a, 0x0c, 0x0e, 0x10, 0x12, 0x16, 0x18, 0x1b, 0x1d, 0x1e, 0x52, 0xd2]
 
 
-def c01_grid(srv, mtu, thorough):
+def c01_grid(srv, mtu, thorough, unknown=True):
     """all 256 opcodes x lengths 1..mtu with boundary field values -> list of PDUs (lists of ints)"""
     t = srv.table
     mx = t["maxHandle"]
     hs = [0, 1, mx, mx + 1, 0xffff]
     for special in (srv.cccds[:1], srv.values[:1], srv.values[-1:]):
         hs += [h for h in special if h not in hs]
-    seconds = [0, 2, 0xffff] if not thorough else [0, 1, 2, 3, 9, 0xffff]
+    seconds = [0, 0xffff] if not thorough else [0, 1, 2, 3, 9, 0xffff]
     lengths_all = list(range(1, mtu + 1)) if (thorough or mtu <= 23) else list(range(1, 26)) + [mtu - 2, mtu - 1, mtu]
     out = []
     for op in range(256):
@@ -270,7 +279,7 @@ def c01_grid(srv, mtu, thorough):
                         pdu = [op] + body[:n - 1]
                         if pdu not in out[-40:]:
                             out.append(pdu)
-        else:
+        elif unknown:
             for n in ([1, 2, 3, 5, mtu] if not thorough else lengths_all):
                 out.append([op] + [0x03, 0x00, 0x00, 0x00][:n - 1] + [0x41] * max(0, n - 5))
     return out
@@ -308,14 +317,14 @@ def run_c01(c):
     servers = _attsec.build(c, _attsec.prepare(c, decls))
     c.extra["declarations"] = [_gatt.decl_summary(s) for s in servers]
     for s in servers[:2]:
-        _attsec.model_check(c, s, "C01", 1, False, ["RefConforms", "C01Framed"], nc=1)
+        _attsec.model_check(c, s, "C01", 1, 0, ["RefConforms", "C01Framed"], nc=1)
     counts = {}
     per_exec = 250
 
     def one(s):
         scripts = []
         for hname, pre, mtu in c01_histories(s):
-            grid = c01_grid(s, mtu, not c.quick)
+            grid = c01_grid(s, mtu, not c.quick, unknown=(not c.quick or hname in ("fresh", "mtu")))
             for i in range(0, len(grid), per_exec):
                 scripts.append(["reset", "cccds", "obs 0"] + pre + ["req 0 " + " ".join(str(b) for b in p) for p in grid[i:i + per_exec]])
         nfix = 3
